@@ -25,7 +25,7 @@ def gen_case(rng, name):
                 "MaxAbsScaler", "MaxScaler", "CRITIC", "Critic", "StdWeighter", "CenitDistanceMatrixScaler",
                 "CenitDistance"):
         style = "positive"
-    c = gen.dm_case(rng, nmax=8, mmax=5, nmin=3, mmin=1, positive=(style == "positive"),
+    c = gen.dm_case(rng, nmax=8, mmax=5, nmin=3, mmin=1, positive=(style == "positive"), label_kinds=False,
                     modes=("dyadic", "int", "float", "tiny123") if style == "positive" else
                     ("dyadic", "int", "float", "tiny012"), structure=False, big=0.0, int_dtypes=0.4)
     n, m = len(c["matrix"]), len(c["weights"])
@@ -199,7 +199,7 @@ def run(ctx):
     # user transformers
     ucases = []
     for _ in range(ctx.n(40, 600)):
-        c = gen.dm_case(ctx.rng, nmax=6, mmax=4, nmin=2, structure=False, big=0.0)
+        c = gen.dm_case(ctx.rng, nmax=6, mmax=4, nmin=2, structure=False, big=0.0, label_kinds=False)
         c["returns"] = ctx.rng.choice(USER_RETURNS)
         ucases.append(c)
     uouts = [run_user(c) for c in ucases]
